@@ -128,7 +128,7 @@ func ZZ_C46_DecodeString_LLEN() {
 	zzAssert("trailing-bytes-detectable", (r.read != len(inp)) == (end != len(inp)))
 }
 
-//verif:harness property=C46 mode=bv unwind=40 lens=0..4 thorough_lens=0..6
+//verif:harness property=C46 mode=bv unwind=40 lens=0..4 thorough_lens=0..5
 func ZZ_C46_DecodeList_LLEN() {
 	inp := zzNondetBytes(LEN)
 	type dl struct {
